@@ -351,6 +351,17 @@ impl<'a> crate::fdl::FdlApplication for DpMaster<'a> {
                             };
                             return None;
                         }
+
+                        if peripheral_event.is_some() {
+                            // Only one peripheral event can be reported at a time.  End this turn
+                            // here so the application gets to see the event.  The cycle continues
+                            // with the next peripheral the next time we are called.
+                            self.state.last_events = DpEvents {
+                                peripheral: peripheral_event,
+                                ..Default::default()
+                            };
+                            return None;
+                        }
                     }
                 }
             } else {
